@@ -58,6 +58,8 @@ def handleValues (op : String) (j : Json) : Except String Json := do
   | "v.partRead" => pure <| optInt (Values.partRead (← getI j "cur") (← getI j "hi") (← getI j "lo"))
   | "v.bitRead" => pure <| optInt (Values.bitRead (← getI j "cur") (← getI j "k"))
   | "v.partWrite" => pure <| optInt (Values.partWrite (← getI j "cur") (← getI j "hi") (← getI j "lo") (← getI j "val"))
+  | "v.partWriteField" => pure <| optInt (Values.partWriteField (← getN j "w") (← getB j "s") (← getI j "cur") (← getI j "hi") (← getI j "lo") (← getI j "val"))
+  | "v.bitWriteField" => pure <| optInt (Values.bitWriteField (← getN j "w") (← getB j "s") (← getI j "cur") (← getI j "k") (← getI j "val"))
   | "v.bitWrite" => pure <| optInt (Values.bitWrite (← getI j "cur") (← getI j "k") (← getI j "val"))
   | "v.enum" => do
       let ms ← getA j "members"
